@@ -53,6 +53,15 @@ def run(rep, tier, seed, b):
         ops = [['set', ['name', 'hypervalent']], ['enc', x, True, False], ['dec', '[C][S][=Branch1][C][=O][=Branch1][C][=O][C]', False, False],
                ['set', ['name', rng.choice(['octet_rule', 'default'])]]]
         items.append((ops, [['dec', '[C][S][=Branch1][C][=O][=Branch1][C][=O][C]', False, False], ['enc', x, True, False], ['enc', x, True, False]], ['0', '7']))
+    # an atom symbol rejected for its H count under one table, then the table changes (either direction), then the same symbol again
+    for _ in range(60 if tier == 'quick' else 1500):
+        c = H.h_boundary(rng)
+        first, second = (c['small'], c['big']) if rng.random() < 0.7 else (c['big'], c['small'])
+        o1, held = H.set_ops(first, 0)
+        o2, held = H.set_ops(second, held)
+        ops = o1 + [['dec', c['selfies'], False, False]] + ([['enc', c['smiles'], True, False]] if rng.random() < 0.5 else []) + o2
+        fin = [['dec', c['selfies'], False, rng.random() < 0.3], ['enc', c['smiles'], True, False], ['dec', c['selfies'], False, False], ['dec', c['selfies'], False, False]]
+        items.append((ops, fin, ['0', '7']))
     res = core.pmap('p_c11', 'work', items, chunk=25)
     for (ops, fin, seeds), (runs, mo, ref) in zip(items, res):
         rep.evaluations += 1
@@ -100,7 +109,8 @@ def run(rep, tier, seed, b):
         rep.sample({'history': ops, 'final': fin})
     rep.rule = ('random histories of 3-14 calls (preset / custom / invalid tables, getters, caller mutations of returned and passed objects, earlier encodes and decodes '
                 'that fill the caches) ending in 2-4 translation calls (the last one repeated); each replayed in fresh interpreters under %d hash seeds, compared with the model, '
-                'with a fresh interpreter set only to the final table, and (strict=False encodes) with a pristine interpreter. '
+                'with a fresh interpreter set only to the final table, and (strict=False encodes) with a pristine interpreter; plus targeted histories: hypervalent molecules across presets, '
+                'and atom symbols whose explicit H count is refused under one table and fits the next (both directions). '
                 'non-trivial = distinct history with >= 4 state-relevant operations' % (2 if tier == 'quick' else 3))
 
 
